@@ -411,7 +411,8 @@ def allowed_vs_constructor(arg):
 def spelling_filter(arg):
     """the allowed list names *species*: a reaction whose species equal allowed ones under another spelling (electron
     'E' / 'E-' / 'e-', ice '#CO' / 'GCO' with prefix G) is allowed, through every entry path"""
-    entry, allowed, reac, kwargs = arg
+    entry, allowed, reac, kwargs = arg[:4]
+    nkw = {"species_kwargs": dict(kwargs)} if len(arg) > 4 and arg[4] else {}  # the network itself is given the symbols
     from ..harness.render import reset_globals, quiet
 
     reset_globals()
@@ -427,15 +428,15 @@ def spelling_filter(arg):
 
     with quiet():
         if entry == "constructor":
-            net = Network([mkr()], allowed_species=list(allowed))
+            net = Network([mkr()], allowed_species=list(allowed), **nkw)
         elif entry == "add":
-            net = Network(allowed_species=list(allowed))
+            net = Network(allowed_species=list(allowed), **nkw)
             net.add_reaction(mkr())
         else:
-            net = Network([mkr()])
+            net = Network([mkr()], **nkw)
             net.allowed_species = list(allowed)
     if len(net.reaction_list) != 1:
-        return [(f"C14:allowed-spelling:{entry}", f"allowed {allowed}, reaction {reac[0]} -> {reac[1]} ({kwargs or 'default symbols'}) via {entry}: every species of the reaction equals an allowed one, but the reaction is filtered out", {"spelling": [entry, list(allowed), [list(reac[0]), list(reac[1])], kwargs]})]
+        return [(f"C14:allowed-spelling:{entry}", f"allowed {allowed}, reaction {reac[0]} -> {reac[1]} ({kwargs or 'default symbols'}) via {entry}: every species of the reaction equals an allowed one, but the reaction is filtered out", {"spelling": [entry, list(allowed), [list(reac[0]), list(reac[1])], kwargs, bool(nkw)]})]
     return []
 
 
@@ -445,6 +446,9 @@ SPELLING = [
     (["e-", "H+", "H"], (["H+", "E-"], ["H"]), {}),
     (["#CO", "CO"], (["CO"], ["GCO"]), {"surface_prefix": "G"}),
     (["GRAIN0", "GRAIN0-", "e-"], (["GRAIN0", "E"], ["GRAIN0-"]), {}),
+    # the network is told the symbols (species_kwargs) and the allowed list is spelled with them
+    (["GCO", "CO"], (["CO"], ["GCO"]), {"surface_prefix": "G"}, True),
+    (["DUST0", "DUST0-", "e-"], (["DUST0", "e-"], ["DUST0-"]), {"grain_symbol": "DUST"}, True),
 ]
 
 
@@ -527,7 +531,7 @@ def run(ctx):
         nav += 1
         ctx.absorb(v)
     nsp = 0
-    for v in ctx.pmap(spelling_filter, [(e, a, r, k) for e in ("constructor", "add", "setter") for a, r, k in SPELLING]):
+    for v in ctx.pmap(spelling_filter, [(e, *sp) for e in ("constructor", "add", "setter") for sp in SPELLING]):
         nsp += 1
         ctx.absorb(v)
     # CLI
@@ -575,8 +579,8 @@ def replay(ctx, case):
     elif "adds" in case:
         ctx.absorb(allowed_vs_constructor((tuple(case["adds"]), case["allowed"])))
     elif "spelling" in case:
-        e, a, r, k = case["spelling"]
-        ctx.absorb(spelling_filter((e, a, (r[0], r[1]), k)))
+        e, a, r, k, *flag = case["spelling"]
+        ctx.absorb(spelling_filter((e, a, (r[0], r[1]), k, *flag)))
     else:
         out = step(tuple(case["history"]))
         ctx.absorb(out["viols"])
